@@ -921,6 +921,15 @@ def b_int(ex, v):
     raise OutOfSubset("int() of non-scalar")
 
 
+def b_sorted(ex, it):
+    items = [tm.lift(num(x)) for x in ex.iterate(it)]
+    if all(tm.is_const(x) for x in items):
+        return sorted(items, key=tm.cval)
+    if len(items) == 2:
+        return [tm.minimum(items[0], items[1]), tm.maximum(items[0], items[1])]
+    raise OutOfSubset("sorted() of more than two symbolic values")
+
+
 def b_round(ex, x, n=None):
     x = tm.lift(num(x))
     if n is None:
@@ -997,6 +1006,7 @@ BUILTINS = {
     "repr": LibFn("repr", lambda ex, v="": "<str>"),
     "print": LibFn("print", lambda ex, *a, **k: None),
     "round": LibFn("round", lambda ex, x, n=None: b_round(ex, x, n)),
+    "sorted": LibFn("sorted", lambda ex, it: b_sorted(ex, it)),
     "ValueError": "ValueError", "RuntimeError": "RuntimeError", "AttributeError": "AttributeError",
     "NotImplementedError": "NotImplementedError", "TypeError": "TypeError", "KeyError": "KeyError",
     "True": True, "False": False, "None": None,
